@@ -1,4 +1,4 @@
-import Confuse.Model.Parser
+import Confuse.Lemmas.Compose
 /-!
 # C01 — parsed configuration equals the reference meaning of the text
 
@@ -180,4 +180,69 @@ theorem C01_parse_pluseq_nonlist (orc : Oracle) (m : PM) (f : Frame) (rest : Lis
   simp only [hrun, hfr]
   simp [hst, hopt, hget, hlist, step_s1, PM.rejectWith, PM.reject, PM.addDiags, collapse]
 
+end Confuse
+
+namespace Confuse
+
+/-! ## The nesting structure: frame locality and compositional evaluation -/
+
+/-- **C01 (frame locality).** Whatever frames lie underneath the stack, a step of the token machine
+does the same thing to the frames above them and leaves them untouched (`liftM` puts `rest`
+underneath; for a machine that stopped it replays the unwinding through `rest`).  The only step
+that looks at a lower frame is the `}` that closes the section of the lowest frame considered.  So
+the parse of a section body — of any length and nesting — cannot read or change any enclosing
+section. -/
+theorem C01_frame_local (orc : Oracle) (m : PM) (f : Frame) (inner rest : List Frame) (tok : Tok) (nl : Nat)
+    (hrun : m.status = .running) (hfr : m.frames = f :: inner) (hin : tok.inner = true)
+    (hpop : ¬ (inner = [] ∧ f.state = .s0 ∧ tok = .rbrace)) :
+    pstep orc (liftM m rest) tok nl = liftM (pstep orc m tok nl) rest :=
+  pstep_lift orc m f inner rest tok nl hrun hfr hin hpop
+
+/-- **C01 (the token machine computes the compositional meaning of the text).** For every item
+list — assignments, braced lists, calls, comments, sections nested to any depth — on which the
+compositional evaluation `evalItems` is defined, the explicit-stack machine run over the flattened
+tokens, on top of any stack `rest`, ends exactly in the evaluation's result on top of `rest`.
+`evalItems` evaluates a section body by a recursive call on a machine holding only the new
+section's frame and re-attaches the result to the enclosing frame at the closing brace. -/
+theorem C01_compositional (orc : Oracle) (items : List Item) (m r : PM) (rest : List Frame)
+    (hev : evalItems orc m items = some r) (hlive : m.status = .running → ∃ f inner, m.frames = f :: inner) :
+    parseToks orc (liftM m rest) (flats items) = liftM r rest :=
+  (evalItems_sound orc items m r rest hev hlive).1
+
+/-- the same from a stack of its own: the run of the machine *is* the compositional evaluation -/
+theorem C01_compositional_top (orc : Oracle) (items : List Item) (m r : PM)
+    (hev : evalItems orc m items = some r) (hrun : m.status = .running) (f : Frame) (hfr : m.frames = [f]) :
+    parseToks orc m (flats items) = liftM r [] := by
+  have := C01_compositional orc items m r [] hev (fun _ => ⟨f, [], hfr⟩)
+  rwa [liftM_nil_running m hrun] at this
+
+end Confuse
+
+namespace Confuse
+/-! ### non-vacuity: a nested text on which the compositional evaluation is defined -/
+
+private def exDecls : List Decl :=
+  [ .mk { name := [97], ty := .int, defInt := 5 } {} [],
+    .mk { name := [108], ty := .int, defList := some [] } { list := true } [],
+    .mk { name := [115], ty := .sec } { multi := true, title := true }
+      [ .mk { name := [98], ty := .int, defInt := 7 } {} [],
+        .mk { name := [117], ty := .sec } {} [ .mk { name := [99], ty := .int, defInt := 9 } {} [] ] ] ]
+private def exM : PM := { frames := [{ cfg := cfgInit exDecls {} }], srcs := [] }
+/-- `a = 1  l = {3, 4}  s "t" { b = 2  u { c = 6 } }` -/
+private def exItems : List Item :=
+  [ .assign [97] 0 false 0 [49] 1,
+    .list [108] 0 false 0 0 [(0, [51], 0), (0, [52], 0)] 1,
+    .sec [115] 0 (some ([116], 0)) 0
+      [ .assign [98] 1 false 0 [50] 0,
+        .sec [117] 1 none 0 [ .assign [99] 0 false 0 [54] 0 ] 1 ] 1 ]
+private def exOrc : Oracle := fun _ _ => .ok
+private def intsOf (o : Opt) : List Int := o.vals.filterMap (fun v => match v with | .int n => some n | _ => none)
+private def secsOf (o : Opt) : List Cfg := o.vals.filterMap (fun v => match v with | .sec c => some c | _ => none)
+
+example : (evalItems exOrc exM exItems).map (fun r => (r.status, r.frames.length, r.diags.length)) =
+    some (.running, 1, 0) := by decide +kernel
+example : (evalItems exOrc exM exItems).map (fun r => r.frames.map (fun f => f.cfg.opts.map intsOf)) =
+    some [[[1], [3, 4], []]] := by decide +kernel
+example : (evalItems exOrc exM exItems).map (fun r => r.frames.map (fun f => f.cfg.opts.map (fun o => (secsOf o).map (fun c => c.opts.map intsOf)))) =
+    some [[[], [], [[[2], []]]]] := by decide +kernel
 end Confuse
